@@ -38,29 +38,13 @@ theorem successor_head (n : Int) (ctx : Ctx) (new : Sym × Nat) (h : CtxOK n ctx
 
 /-! ### well-typedness, unfolded -/
 
-theorem wtHeadsT_iff (dsl : Dsl) (request : Ty) (vis : Sym × Nat → Option (Sym × Nat)) (kids : List Prog) (f : Sym) :
-    ∀ cs : List (Sym × List Ty), wtHeadsT dsl request vis kids f cs = true ↔
-      ∃ c ∈ cs, c.1 = f ∧ wtTList dsl request vis kids f 0 c.2 = true
-  | [] => by simp [wtHeadsT]
-  | c :: cs => by
-    rw [wtHeadsT, Bool.or_eq_true, wtHeadsT_iff dsl request vis kids f cs]
-    constructor
-    · rintro (h | ⟨c', hc', h⟩)
-      · simp only [Bool.and_eq_true, beq_iff_eq] at h
-        exact ⟨c, List.mem_cons_self .., h.1, h.2⟩
-      · exact ⟨c', List.mem_cons_of_mem _ hc', h⟩
-    · rintro ⟨c', hc', h1, h2⟩
-      rcases List.mem_cons.mp hc' with e | hm
-      · left; subst e; simp [h1, h2]
-      · right; exact ⟨c', hm, h1, h2⟩
-
 theorem wtT_node (dsl : Dsl) (request : Ty) (vis : Sym × Nat → Option (Sym × Nat)) (f : Sym) (kids : List Prog)
     (parent : Option (Sym × Nat)) (ty : Ty) :
     wtT dsl request vis (.node f kids) parent ty = true ↔
       forbHit dsl parent f = false ∧
       ∃ c ∈ candidates dsl.prims request ty, c.1 = f ∧ wtTList dsl request vis kids f 0 c.2 = true := by
-  rw [wtT, Bool.and_eq_true, wtHeadsT_iff]
-  simp
+  rw [wtT, Bool.and_eq_true, List.any_eq_true]
+  simp only [Bool.not_eq_true', Bool.and_eq_true, beq_iff_eq]
 
 theorem wtTList_length (dsl : Dsl) (request : Ty) (vis : Sym × Nat → Option (Sym × Nat)) (f : Sym) :
     ∀ (ks : List Prog) (i : Nat) (tys : List Ty), wtTList dsl request vis ks f i tys = true → ks.length = tys.length
